@@ -44,10 +44,11 @@ PROPS = {
         "assumptions": ["capacity limits (16 members, 14 groups) are preconditions"],
     },
     "C04": {
-        "claim": 'Decides GC7 completely: the tag write in add() is guarded by the pre-state tag being 0, the reset of edges, data and read status co-occurs with it on exactly the same paths, and no other path of add() writes anything; add() contains no always-compiled assertion about the vacant slot other than the documented preconditions (and "holds no unread datum", which counter exactness gives), so re-creating a collected id completes. CL1 (a clone has every slot of the vertex table of the original) is run as a premise: the statement holds on clones as well. GC2 (a collection marks every member of the group absent) is run as a premise of the clause about ids whose vertex was collected: such an id is absent.',
+        "claim": 'Decides GC7 completely: the tag write in add() is guarded by the pre-state tag being 0, the reset of edges, data and read status co-occurs with it on exactly the same paths, and no other path of add() writes anything; add() contains no always-compiled assertion about the vacant slot other than the documented preconditions (and "holds no unread datum", which counter exactness gives), so re-creating a collected id completes. CL1 (a clone has every slot of the vertex table of the original) is run as a premise: the statement holds on clones as well. GC2 (a collection marks every member of the group absent) is run as a premise of the clause about ids whose vertex was collected: such an id is absent. XP1 (keys/len/is_empty instances) is run as a premise: "present" as observed through keys(), len() and is_empty() is "tag != 0", exactly — the state add() establishes.',
         "note": 'Trusted: rustc front end + engine; micromap::Map::new / Hex::empty produce blank values (read).',
         "technique": 'MIR guard + co-occurrence rule on add()',
-        "rules": [("GC7", functools.partial(G.gc7, part="abc")), ("CL1/CL4", NX.cl1), ("GC2", G.gc2)],
+        "rules": [("GC7", functools.partial(G.gc7, part="abc")), ("CL1/CL4", NX.cl1), ("GC2", G.gc2),
+                  ("XP1", functools.partial(L.xp1, only=("Sodg::keys", "Sodg::len")))],
         "explanation": "add(): tag := 1 only under pre-state tag ∈ {0}, with edges/data/read status reset on the same paths; "
                        "no effect on a present vertex.",
         "trusted": [RUSTC, CONTAINERS],
@@ -146,10 +147,10 @@ PROPS = {
         "assumptions": [],
     },
     "C07": {
-        "claim": "Decides the sodg-side clause, in the conservative direction: no user-written unsafe block/fn/impl/extern block, raw pointer or transmute anywhere in the crate (HIR + MIR); every resolved callee in emap/micromap/microstack is outside the audited deny-list (uninitialised constructor, bitwise-reading iterators, *_unchecked, any unsafe fn), so each element access goes through an entry point that asserts its bound in a debug-assertion build; Stack::from_vec only on a literal of at most 16 elements; the locked checksums of the containers equal the audited ones; the element types for which the containers' bitwise reads are sound are unchanged; a graph built from the ids of another one (slice) gets that graph's vertex capacity. It can reject code that is in fact safe; it cannot accept code that leaves the checked API. Does not decide the containers' internals, release builds, or 'calls within the limits complete' (C02's no-panic clause). GC6c: the two group tables are created with the same size, so a group id valid for one is valid for the other. NX2: next_id() searches the whole vertex store from the allocator position, so it completes whenever an absent id at or above the position remains (one instance of 'calls within the limits complete'; the clause as a whole is not decided). CL1: a clone has every table of the original (a clone without the counters stops in the first read). RW1: bind() contains no always-compiled assertion other than the documented preconditions and the container's own full-map condition, and records an edge only through micromap's insert (which asserts room for a new key) or a checked_insert whose refusal is unwrapped, so the (N+1)-th label stops with a panic. LM (exact): a member list holds exactly 16 vertices, so the 17th member of a group stops in microstack's push assertion, and the group tables have at least the documented 16 slots.",
+        "claim": "Decides the sodg-side clause, in the conservative direction: no user-written unsafe block/fn/impl/extern block, raw pointer or transmute anywhere in the crate (HIR + MIR); every resolved callee in emap/micromap/microstack is outside the audited deny-list (uninitialised constructor, bitwise-reading iterators, *_unchecked, any unsafe fn), so each element access goes through an entry point that asserts its bound in a debug-assertion build; Stack::from_vec only on a literal of at most 16 elements; the locked checksums of the containers equal the audited ones; the element types for which the containers' bitwise reads are sound are unchanged; a graph built from the ids of another one (slice) gets that graph's vertex capacity. It can reject code that is in fact safe; it cannot accept code that leaves the checked API. Does not decide the containers' internals, release builds, or 'calls within the limits complete' (C02's no-panic clause). GC6c: the two group tables are created with the same size, so a group id valid for one is valid for the other. NX2: next_id() searches the whole vertex store from the allocator position, so it completes whenever an absent id at or above the position remains (one instance of 'calls within the limits complete'; the clause as a whole is not decided). CL1: a clone has every table of the original (a clone without the counters stops in the first read). RW1: bind() contains no always-compiled assertion other than the documented preconditions and the container's own full-map condition, and records an edge only through micromap's insert (which asserts room for a new key) or a checked_insert whose refusal is unwrapped, so the (N+1)-th label stops with a panic. MS7 (check before change): in add/bind/put/data every change of the graph is dominated by the vertex-table lookup of each id parameter, so a call stopped for an id at or above the capacity leaves the graph as it was and later calls within the limits still complete. LM (exact): a member list holds exactly 16 vertices, so the 17th member of a group stops in microstack's push assertion, and the group tables have at least the documented 16 slots.",
         "note": "Trusted: the audit of emap 0.0.13 / micromap 0.0.19 / microstack 0.0.7 by reading (DESIGN §3): bounds asserted under debug_assertions, push asserts in all builds. Claimed for debug-assertion builds only, as the property says.",
         "technique": "HIR/MIR unsafe scan + who-may-call deny-list over resolved callees + lockfile/type facts",
-        "rules": [("MS1", MS.ms1), ("MS2", MS.ms2), ("MS3", MS.ms3), ("MS4", MS.ms4), ("MS5", MS.ms5), ("MS6", MS.ms6), ("RW1", functools.partial(RW.rw1, only_stop=True)), ("NX2/NX3", NX.nx23), ("CL1/CL4", NX.cl1), ("GC6c", functools.partial(G.gc6, parts="c")), ("LM", functools.partial(G.limits, exact=True)), ("MS2x", MS.ms_cross)],
+        "rules": [("MS1", MS.ms1), ("MS2", MS.ms2), ("MS3", MS.ms3), ("MS4", MS.ms4), ("MS5", MS.ms5), ("MS6", MS.ms6), ("MS7", MS.ms7), ("RW1", functools.partial(RW.rw1, only_stop=True)), ("NX2/NX3", NX.nx23), ("CL1/CL4", NX.cl1), ("GC6c", functools.partial(G.gc6, parts="c")), ("LM", functools.partial(G.limits, exact=True)), ("MS2x", MS.ms_cross)],
         "explanation": "MS1 no unsafe, MS2 container deny-list over all resolved callees (floor 60 sites), MS3 from_vec literal, MS4 audited checksums, MS5 element types; thorough adds a clippy disallowed_methods cross-check.",
         "trusted": [RUSTC, CONTAINERS],
         "assumptions": ["debug-assertion builds"],
@@ -189,10 +190,10 @@ PROPS = {
         "assumptions": [],
     },
     "C13": {
-        "claim": "Decides SL1–SL6: every insertion into the work set inside the closure loop is control-dependent on the visited set not containing that vertex and the vertex is marked on enqueue or dequeue (each vertex processed at most once: termination on cycles; roles found structurally); a vertex is enqueued only under p(from,to,label) true with exactly the scanned edge's components, every edge of a visited vertex being scanned and the scan loop never left by break or an early success return; the rebuild calls add/bind only, bind(v1,v2,k) with exactly (outer key, inner target, inner label) of the edge iterated, control-dependent on nothing but membership of both endpoints in the visited set; nothing is written through &self; the slice has the source's capacity; slice() passes the constantly-true predicate. Does not decide set equality with graph reachability as such. RW1, GC5 and GC7 (contracts of bind() and add(), with which the slice is rebuilt) are run as premises. SL7: slice()/slice_some() build no Err of their own except to refuse a start id at or beyond the capacity.",
+        "claim": "Decides SL1–SL6: every insertion into the work set inside the closure loop is control-dependent on the visited set not containing that vertex and the vertex is marked on enqueue or dequeue (each vertex processed at most once: termination on cycles; roles found structurally); a vertex is enqueued only under p(from,to,label) true with exactly the scanned edge's components, every edge of a visited vertex being scanned and the scan loop never left by break or an early success return; the rebuild calls add/bind only, bind(v1,v2,k) with exactly (outer key, inner target, inner label) of the edge iterated, control-dependent on nothing but membership of both endpoints in the visited set; nothing is written through &self; the slice has the source's capacity; slice() passes the constantly-true predicate. Does not decide set equality with graph reachability as such. RW1, GC5 and GC7 (contracts of bind() and add(), with which the slice is rebuilt) are run as premises. SL7: slice()/slice_some() build no Err of their own except to refuse a start id at or beyond the capacity. SL8: every Ok(..) of slice() carries the graph produced by its slice_some() call (no second, fast-path definition of the reachable sub-graph).",
         "note": "Trusted: rustc front end + engine; std HashSet. Soundness of each copy, completeness of the scan and termination are decided; equality of the kept set with the reachable set follows by the standard work-list argument (hand).",
         "technique": "MIR visited-set discipline (guard + co-occurrence) + provenance of rebuild arguments + purity",
-        "rules": [("SL1/SL2", SL.sl12), ("SL3-6", SL.sl3456), ("SL7", SL.sl7),
+        "rules": [("SL1/SL2", SL.sl12), ("SL3-6", SL.sl3456), ("SL7", SL.sl7), ("SL8", SL.sl8),
                   # the slice is rebuilt with add() and bind(): their own contracts are premises (edge recorded, vertex blank, joins
                   # that keep the member lists within the limits)
                   ("RW1", RW.rw1), ("GC5", G.gc5), ("GC7", functools.partial(G.gc7, part="ab"))],
@@ -201,19 +202,19 @@ PROPS = {
         "assumptions": ["everything reachable from v is present and numbers at most 14 vertices"],
     },
     "C19": {
-        "claim": "Decides ND1–ND3, which remove every source of run-to-run or size dependence: values produced by iterating a std hash container, and loop bodies driven by them, reach only order-insensitive uses (set/map insert, contains, len, reads, the user predicate) unless sorted first — never a graph mutator, next_id or an unsorted returned sequence/string; time/random/environment sources feed logging only and no pointer is turned into a number; the const parameter N never occurs as a value and capacity() flows only into Sodg::empty, a diverging bound check or logging. Does not decide equality of whole traces across configurations as such. SZ3-5 (save/load use bincode's default configuration on the whole image: no size limit that a larger capacity would exceed) and NX2 (next_id() tries every id up to the last slot, so whether it finds one depends on the capacity only through exhaustion) and LM (the group tables and member lists have the fixed documented sizes, not sizes taken from N) are run as premises.",
+        "claim": "Decides ND1–ND3, which remove every source of run-to-run or size dependence: values produced by iterating a std hash container, and loop bodies driven by them, reach only order-insensitive uses (set/map insert, contains, len, reads, the user predicate) unless sorted first — never a graph mutator, next_id or an unsorted returned sequence/string; time/random/environment sources feed logging only and no pointer is turned into a number; the const parameter N never occurs as a value and capacity() flows only into Sodg::empty, a diverging bound check or logging. Does not decide equality of whole traces across configurations as such. SZ3-5 (save/load use bincode's default configuration on the whole image: no size limit that a larger capacity would exceed) and NX2 (next_id() tries every id up to the last slot, so whether it finds one depends on the capacity only through exhaustion) and LM (the group tables and member lists have the fixed documented sizes, not sizes taken from N) are run as premises. SL1/SL2 are run as a premise: slice_some() drains its work set in hash order (accepted by ND1 because what it computes, the set of vertices reachable along accepted edges, does not depend on that order); that holds only while a vertex is marked visited exactly when an accepted edge reaches it and the predicate is asked for every edge of every visited vertex — a traversal that remembers refusals per vertex, or marks before asking, computes a set that depends on the drain order.",
         "note": "Trusted: rustc front end + engine; micromap iteration is insertion-ordered and emap iteration ascending (deterministic), as read.",
         "technique": "MIR taint analysis (hash-iteration order, time, size parameters) with sort as sanitiser",
-        "rules": [("ND1", SL.nd1), ("ND2", SL.nd2), ("ND3", SL.nd3), ("SZ3-5", functools.partial(SZ.sz345, roundtrip=False)), ("NX2/NX3", NX.nx23), ("LM", G.limits)],
+        "rules": [("ND1", SL.nd1), ("ND2", SL.nd2), ("ND3", SL.nd3), ("SZ3-5", functools.partial(SZ.sz345, roundtrip=False)), ("NX2/NX3", NX.nx23), ("LM", G.limits), ("SL1/SL2", SL.sl12)],
         "explanation": "ND1 hash-order taint (floor 3 sources), ND2 other nondeterminism sources, ND3 N / capacity only as bounds.",
         "trusted": [RUSTC, CONTAINERS],
         "assumptions": ["sequences that fit within the limits of both configurations"],
     },
     "C14": {
-        "claim": "Decides SC1–SC4: in the per-command function the three graph calls are control-dependent on the command name (capture 1 of the command text) being equal to ADD / BIND / PUT and take add(id(arg0)), bind(id(arg0), id(arg1), Label::from_str(arg2)), put(id(arg0), data(arg1)) on the given graph, with no other graph mutation in the closure of deploy_to; one next_id per variable name (NX5); the returned count is incremented exactly once on the success edge of each deployed command and commands run in split(';') order through order-preserving adaptors only; no panicking operation on script-derived data outside an audited table (Regex::new on literals, captures that always participate, hex-pair parsing dominated by the hex-pairs regex). Does not decide the grammar itself (what the regular expressions accept: comment stripping, whitespace, hex formatting). SC5: Script::from_str stores exactly the text it is given, and an identifier loses exactly its one sigil before it reaches the number parser or the variable table. LB2 (Label::from_str, which BIND parses its label with, returns Err and does not panic on an over-long text) is run as a premise.",
+        "claim": "Decides SC1–SC4: in the per-command function the three graph calls are control-dependent on the command name (capture 1 of the command text) being equal to ADD / BIND / PUT and take add(id(arg0)), bind(id(arg0), id(arg1), Label::from_str(arg2)), put(id(arg0), data(arg1)) on the given graph, with no other graph mutation in the closure of deploy_to; one next_id per variable name (NX5); the returned count is incremented exactly once on the success edge of each deployed command and commands run in split(';') order through order-preserving adaptors only; no panicking operation on script-derived data outside an audited table (Regex::new on literals, captures that always participate, hex-pair parsing dominated by the hex-pairs regex). Does not decide the grammar itself (what the regular expressions accept: comment stripping, whitespace, hex formatting). SC5: Script::from_str stores exactly the text it is given, and an identifier loses exactly its one sigil before it reaches the number parser or the variable table. LB2 (Label::from_str, which BIND parses its label with, returns Err and does not panic on an over-long text) is run as a premise. SC6: where an argument is decoded under a successful regex test (PUT's data), the decoder is given the very text that passed the test (the cleaned copy), not the raw argument it was derived from.",
         "note": "Trusted: rustc front end + engine; regex crate semantics for the audited exceptions. The grammar (language accepted by the four regular expressions) is not code shape and is not decided; e.g. a trailing comment without newline is not stripped (DESIGN §4).",
         "technique": "MIR dispatch-table agreement (guard + argument provenance) + error-discipline rule",
-        "rules": [("SC1", SC.sc1), ("SC2", NX.nx5), ("SC3", SC.sc3), ("SC4", SC.sc4), ("SC5", SC.sc5), ("LB2", LB.lb2)],
+        "rules": [("SC1", SC.sc1), ("SC2", NX.nx5), ("SC3", SC.sc3), ("SC4", SC.sc4), ("SC5", SC.sc5), ("SC6", SC.sc6), ("LB2", LB.lb2)],
         "explanation": "SC1 dispatch table (floor 3), SC2 variables, SC3 count and order, SC4 panicking operations vs audited table (floor 8).",
         "trusted": [RUSTC, "regex crate"],
         "assumptions": ["programs within the capacity limits and preconditions"],
